@@ -33,12 +33,17 @@ class C06(Prop):
                   "leaves exactly the matching entries and a clear call nothing (machine-level, the call run alone); the model's run of every case "
                   "whose keys carry one hash per class passes spec_ok (C06_spec_ok_on_model) and spec_ok = true implies agreement with the single-map replay "
                   "(C06_spec_ok_sound; the converse is not stated). Tied to /repo by "
-                  "replaying histories and schedules on the real code plus a free-running stress engine.")
+                  "replaying histories and schedules on the real code plus two oracle engines (free-running stress; key-side state racing registry operations).")
     level_note = ("SC interleaving at lock granularity: RwLock and hashbrown are trusted to give mutual exclusion / map semantics (a shard is an "
                   "association list searched by (hash, ==)). retain/clear/visit are modelled as the code is: one shard lock after the other, so "
                   "they are not atomic over the registry (the reference machine sweeps the single map band by band in the same way). The executable "
                   "model runs with hash := the hash the implementation reported for the first key of the same class named by the case, so the key "
-                  "contract holds by construction; spec_ok additionally requires that all keys of one class were reported with one hash.")
+                  "contract holds by construction; spec_ok additionally requires that all keys of one class were reported with one hash. "
+                  "Key-side state (the hash memo inside Key: get_hash / Clone, yield sites 301-306) is NOT part of the C06 model: the C06 theorems "
+                  "assume key_contract, which for a lazily hashed key used and cloned concurrently is C03's theorem (C03_get_hash_stable_under_races: "
+                  "every get_hash / clone-then-get_hash returns the true hash under every schedule; C06's invariants and refinement hold under the "
+                  "contract). For C06 that race is covered by the keyrace engine only (directed schedules over sites 301-306 and free-running rounds on "
+                  "the real registry, judged by an oracle, not compared with the Coq model).")
     rule = ("histories: 1 thread, 4-14 calls over 2-5 key classes (variants = equal keys built differently incl. two labels sharing a name in either "
             "order and identical labels; same-name pairs inside 3+ labels are distinct classes; classes chosen to collide in one "
             "shard half of the time), all three kinds, every call kind; exhaustive schedules of {2 creators}, {creator || create;delete}, "
@@ -47,7 +52,8 @@ class C06(Prop):
             "deleter}, {creator || retain/clear}, mixed), random/bursty schedules + round-robin tail; non-trivial = some storage constructed and "
             "(a removal or a second creator of a live class or >=2 threads reaching their locks); distinct = distinct (programs, executed trace)")
     assumptions = ["SC memory model at shard-lock granularity", "yield hooks placed immediately before each shard lock acquisition of registry/mod.rs",
-                   "AHash values are taken from the implementation (reported per key), not modelled"]
+                   "AHash values are taken from the implementation (reported per key), not modelled",
+                   "Key's hash memo under racing first use / clone satisfies the key contract (proved in C03, exercised here by the keyrace engine)"]
     trusted_extra = ["harness/sched deterministic scheduler", "std RwLock, hashbrown raw-entry API (exercised, modelled as an association list per shard)"]
 
     # ---- hash table of the key pool, from the implementation
@@ -395,6 +401,26 @@ class C06(Prop):
                             "still present after delete, or constructions != removals + live", dict(observed=line, stderr=err[-500:], cmd="STRESS 8 %d %d" % (iters, ctx["seed"] * 3 + rep))))
                 break
         ctx["coverage"]["stress_runs"] = runs
+        ctx["coverage"]["stress_dimensions"] = ("STRESS 8 threads x %d iterations x 3 seeds; phase 2: %d barrier rounds per run" % (iters, max(iters // 20, 50)))
+        # key-side state racing registry operations (const-constructed, never hashed keys; clones taken during the first use)
+        rounds, budget = (30000, 5000) if ctx["tier"] == "quick" else (600000, 60000)
+        kruns = []
+        for rep in range(2):
+            cmd = "KEYRACE %d %d %d" % (rounds, budget, ctx["seed"] * 2 + rep)
+            rc, outs, err = core.run_impl(ctx["binpath"], [cmd], timeout=900)
+            line = outs[0] if outs else ""
+            kruns.append(line)
+            if rc != 0 or not line.startswith("KEYRACE ok=1 "):
+                out.append(("keyrace", "key-side state racing registry operations: a fresh const-constructed (never hashed) key is used for the first time "
+                            "through the registry by one thread while others clone it and resolve the clones (get_or_create / get / delete) and another builds "
+                            "an equal key a different way. Part 1: directed schedules with the key's own yield sites 301-306 (every thread order of length 8, "
+                            "3 const constructors); part 2: free-running rounds. Violated: a clone reports another get_hash than the key it equals, a clone or "
+                            "an equal key reached a different storage (not Arc::ptr_eq), more than one storage was constructed for one key, visit did not list "
+                            "the key exactly once, or delete through a clone was untruthful", dict(observed=line, stderr=err[-500:], cmd=cmd)))
+                break
+        ctx["coverage"]["keyrace_runs"] = kruns
+        ctx["coverage"]["keyrace_dimensions"] = ("per run: 768 directed schedules (2 threads, sites 301-306, 3 const constructors x 256 thread orders, 2 clones each) + up to "
+                                                 "%d free-running rounds within %d ms (4 workers: first user, 2 cloners x 24 clones, 1 equal key from owned parts; all kinds)" % (rounds, budget))
         return out
 
 
